@@ -392,7 +392,12 @@ where
                 if let Some(cl) = ctx.excluded_class(layer, c) {
                     (r, Err(cl))
                 } else {
-                    (r, Ok(layer.eval(c)))
+                    let t0 = std::time::Instant::now();
+                    let v = layer.eval(c);
+                    if t0.elapsed().as_secs() >= 8 && std::env::var_os("BVERIF_DEBUG").is_some() {
+                        eprintln!("SLOW ({} s, {:?}):\n{r}\n----", t0.elapsed().as_secs(), v.outcome);
+                    }
+                    (r, Ok(v))
                 }
             })
             .collect();
